@@ -192,9 +192,9 @@ def _log_draw(sampler, c, kind):
     rec = REC[0]
     if rec is None:
         return
-    gt = list(sampler._ground_truth_annotators)
+    # what the harness itself passed to compute_gamma (not the sampler's internal attributes)
+    gt, ref = rec.gt, rec.ref
     anns = list(c.annotators)
-    ref = sampler._reference_continuum
     rec.gtsigs = [sorted([fx(u.segment.duration), LABRANK(u.annotation)] for u in ref[a]) for a in gt] if kind == "shuffle" else []
     rec.draws.append({"seq": next_seq(), "thread": 0 if threading.get_ident() == MAIN else 1, "sid": rec.sid(c),
                       "nunits": int(c.num_units), "nann": len(anns),
@@ -253,6 +253,7 @@ def one_run(pa, c, d, cfg, samplers, sampler=None):
     RecStat, RecShuffle = samplers
     rec = Recorder()
     rec.sid(c)        # the input continuum is sample id 0
+    rec.ref, rec.gt = c, sorted(cfg["gt"]) if cfg["gt"] else list(c.annotators)
     if sampler is None:
         sampler = RecStat() if cfg["sampler"] == "stat" else RecShuffle(pivot_type=cfg["sampler"])
     LAST_SAMPLER[0] = sampler
@@ -293,9 +294,13 @@ def one_run(pa, c, d, cfg, samplers, sampler=None):
     pf = Fraction(p).limit_denominator(10000) if p is not None else Fraction(1)
     g = res.gamma
     rlo, rhi, rexc = 0, 0, ""
+    r6 = {"rlo6": 0, "rhi6": 0, "obs6": 0, "exp6": 0, "r6ok": 0}      # the same at 1e-6 (the 1e-4 grid is too coarse when 1 - bound is small)
     try:
         lo_, hi_ = res.approx_gamma_range
         rlo, rhi = fx(lo_), fx(hi_)
+        vals6 = [float(lo_), float(hi_), float(res.observed_disorder), float(res.expected_disorder)]
+        if all(abs(v) < 2000 for v in vals6):
+            r6 = dict(zip(["rlo6", "rhi6", "obs6", "exp6"], [int(round(v * 1000000)) for v in vals6]), r6ok=1)
     except Exception as ex:
         rexc = type(ex).__name__
     trace = {"n": cfg["n"], "hasprec": 0 if cfg["precision"] is None else 1, "pa": pf.numerator, "pb": pf.denominator,
@@ -304,7 +309,7 @@ def one_run(pa, c, d, cfg, samplers, sampler=None):
              "draws": rec.draws, "submits": rec.submits, "chance": chance, "best": entry(res.best_alignment),
              "gtsigs": getattr(rec, "gtsigs", []),
              "observed": fx(res.observed_disorder), "expected": fx(res.expected_disorder), "gamma": fx(g),
-             "identical": 1 if cfg.get("identical") else 0, "rlo": rlo, "rhi": rhi, "rexc": rexc}
+             "identical": 1 if cfg.get("identical") else 0, "rlo": rlo, "rhi": rhi, "rexc": rexc, **r6}
     return res, trace, None
 
 
@@ -416,9 +421,13 @@ def judge(recs, groups, label):
     return res, verdicts
 
 
-C05_CLAUSES = {"ObsRange", "ObsCount", "ObsNoExtraDraw", "ObsChanceOrder", "ObsSampleValid", "ObsMode", "ObsObserved", "ObsExpected",
+BEYOND_CLAUSES = {"ObsRange"}      # approx_gamma_range is not part of C05's statement: a deviation there is a NOTE, never an alarm
+C05_CLAUSES = {"ObsCount", "ObsNoExtraDraw", "ObsChanceFresh", "ObsSampleValid", "ObsMode", "ObsObserved", "ObsExpected",
                "ObsGamma", "ObsLeOne", "ObsIdentical"}
-C06_CLAUSES = {"DrawInMainThread", "DrawBeforeSubmit", "ObsChanceOrder", "ObsSameAsFirst"}
+C06_CLAUSES = {"ObsSameAsFirst"}
+# HOW reproducibility is achieved (samples drawn by the calling thread, before their job is submitted) is the design GammaRun.tla
+# models, not part of C06's statement: a run that departs from it is a NOTE; what is judged is that the results are the same
+C06_BEYOND = {"DrawInMainThread", "DrawBeforeSubmit", "ObsChanceOrder"}
 
 
 def run_c05(tier, rep, pa):
@@ -464,6 +473,10 @@ def run_c05(tier, rep, pa):
     rep.add_tlc(res)
     rep.traces += len(recs)
     for k, names in verdicts.items():
+        if names & BEYOND_CLAUSES:
+            rep.beyond("gamma." + "+".join(sorted(names & BEYOND_CLAUSES)),
+                       {"config": {x: y for x, y in metas[k].items() if not x.startswith("_")},
+                        "trace": {x: y for x, y in recs[k].items() if x not in ("draws", "submits", "chance", "gtsigs")}})
         bad = sorted(n for n in names if n in C05_CLAUSES)
         if bad:
             t = recs[k]
@@ -589,6 +602,8 @@ def run_c06(tier, rep, pa):
     rep.add_tlc(res)
     rep.traces += len(recs)
     for k, names in verdicts.items():
+        if names & C06_BEYOND:
+            rep.beyond("schedule." + "+".join(sorted(names & C06_BEYOND)), {"config": metas[k]})
         bad = sorted(n for n in names if n in C06_CLAUSES)
         if "ObsSameAsFirst" in bad:
             bad.remove("ObsSameAsFirst")
